@@ -156,8 +156,12 @@ static inline int sline_putchar(struct sline *sl, char c)
 
 static inline int sline_newdata(struct sline *sl, const char *data, int len)
 {
-    if (len > sline_avail(sl))
-        len = sline_avail(sl);
+    // one slot is reserved for the terminator written by sline_getline
+    int room = sline_avail(sl) - 1;
+    if (room < 0)
+        room = 0;
+    if (len > room)
+        len = room;
 
     if (sl->cursor != sl->len)
     {
